@@ -243,4 +243,57 @@ theorem fallback_collision_dict_counterexample (H : Bs → Bs) :
   refine ⟨by simp, ?_⟩
   rfl
 
+/-! ## F40 — `Hasher._batch_setitems` on the one-shot item iterator of OrderedDict / dict subclasses
+
+`encodeOD H iv items` is the stream of a top-level `collections.OrderedDict(items)` under the three
+versions of `Hasher._batch_setitems` (`ItemsVer`); validated byte for byte by the correspondence
+against the matching tree. -/
+section OrderedDictIterator
+
+/-- F40 (regression of the first F6 repair, commit aa0f898): the frozenset pre-scan exhausts the
+iterator, so `OrderedDict(a=1)`, `OrderedDict(a=2)` and `OrderedDict()` have ONE stream, for every `H`. -/
+theorem regressed_ordereddict_collision_counterexample (H : Bs → Bs) :
+    encodeOD H .regressed [(.str [97], .int 1)] = encodeOD H .regressed [] ∧
+    encodeOD H .regressed [(.str [97], .int 2)] = encodeOD H .regressed [] := by
+  have h0 : encodeOD H .regressed [] =
+      [128, 3, 99, 99, 111, 108, 108, 101, 99, 116, 105, 111, 110, 115, 10, 79, 114, 100, 101, 114, 101, 100, 68, 105, 99,
+        116, 10, 113, 0, 41, 82, 113, 1, 46] := rfl
+  have h1 : encodeOD H .regressed [(.str [97], .int 1)] =
+      [128, 3, 99, 99, 111, 108, 108, 101, 99, 116, 105, 111, 110, 115, 10, 79, 114, 100, 101, 114, 101, 100, 68, 105, 99,
+        116, 10, 113, 0, 41, 82, 113, 1, 46] := rfl
+  have h2 : encodeOD H .regressed [(.str [97], .int 2)] =
+      [128, 3, 99, 99, 111, 108, 108, 101, 99, 116, 105, 111, 110, 115, 10, 79, 114, 100, 101, 114, 101, 100, 68, 105, 99,
+        116, 10, 113, 0, 41, 82, 113, 1, 46] := rfl
+  rw [h0, h1, h2]; exact ⟨rfl, rfl⟩
+
+/-- The repaired code (`items = list(items)` first) keeps the three apart: the items are in the stream. -/
+theorem repaired_ordereddict_witness (H : Bs → Bs) :
+    encodeOD H .repaired [(.str [97], .int 1)] ≠ encodeOD H .repaired [] ∧
+    encodeOD H .repaired [(.str [97], .int 1)] ≠ encodeOD H .repaired [(.str [97], .int 2)] := by
+  have h0 : encodeOD H .repaired [] =
+      [128, 3, 99, 99, 111, 108, 108, 101, 99, 116, 105, 111, 110, 115, 10, 79, 114, 100, 101, 114, 101, 100, 68, 105, 99,
+        116, 10, 113, 0, 41, 82, 113, 1, 46] := rfl
+  have h1 : encodeOD H .repaired [(.str [97], .int 1)] =
+      [128, 3, 99, 99, 111, 108, 108, 101, 99, 116, 105, 111, 110, 115, 10, 79, 114, 100, 101, 114, 101, 100, 68, 105, 99,
+        116, 10, 113, 0, 41, 82, 113, 1, 88, 1, 0, 0, 0, 97, 75, 1, 115, 46] := rfl
+  have h2 : encodeOD H .repaired [(.str [97], .int 2)] =
+      [128, 3, 99, 99, 111, 108, 108, 101, 99, 116, 105, 111, 110, 115, 10, 79, 114, 100, 101, 114, 101, 100, 68, 105, 99,
+        116, 10, 113, 0, 41, 82, 113, 1, 88, 1, 0, 0, 0, 97, 75, 2, 115, 46] := rfl
+  rw [h0, h1, h2]; decide
+
+/-- The pinned tree had the same hole on the fallback path: `sorted(iterator)` consumes the items
+before raising `TypeError`, and the digest fallback then iterates nothing —
+`OrderedDict({1: 'x', 'a': 'y'})` hashed like `OrderedDict()`. -/
+theorem pinned_ordereddict_fallback_counterexample (H : Bs → Bs) :
+    encodeOD H .pinned [(.int 1, .str [120]), (.str [97], .str [121])] = encodeOD H .pinned [] := by
+  have h0 : encodeOD H .pinned [] =
+      [128, 3, 99, 99, 111, 108, 108, 101, 99, 116, 105, 111, 110, 115, 10, 79, 114, 100, 101, 114, 101, 100, 68, 105, 99,
+        116, 10, 113, 0, 41, 82, 113, 1, 46] := rfl
+  have h1 : encodeOD H .pinned [(.int 1, .str [120]), (.str [97], .str [121])] =
+      [128, 3, 99, 99, 111, 108, 108, 101, 99, 116, 105, 111, 110, 115, 10, 79, 114, 100, 101, 114, 101, 100, 68, 105, 99,
+        116, 10, 113, 0, 41, 82, 113, 1, 46] := rfl
+  rw [h0, h1]
+
+end OrderedDictIterator
+
 end C08
